@@ -36,6 +36,10 @@ pub fn install() {
             .location()
             .map(|l| format!("{}:{}", l.file(), l.line()))
             .unwrap_or_else(|| "<unknown>".to_string());
+        if std::thread::current().name() == Some("main") || std::env::var("PVH_PANIC_VERBOSE").is_ok() {
+            // panics on the main thread are harness bugs (cases run on guarded worker threads)
+            eprintln!("harness panic: {} at {}", msg, loc);
+        }
         LAST_PANIC.with(|p| *p.borrow_mut() = Some((msg, loc)));
     }));
 }
